@@ -76,7 +76,27 @@ func (e *Engine) opBatch(c *cursor) *Violation {
 			// only legal if every related match carries exactly the removed relation: rem ⊆ all guarantees that
 		}
 	}
+	if e.P.TargetsOnly {
+		if op.Variant == "Batch.RemoveEntities" {
+			for _, me := range matched {
+				if e.M.Targets[me.H] {
+					e.St.Skipped++
+					return nil
+				}
+			}
+		}
+		if op.Variant != "Relations.ExchangeBatch" {
+			var a2 []int
+			for _, t := range add {
+				if e.M.RelMask&(1<<uint(t)) == 0 {
+					a2 = append(a2, t)
+				}
+			}
+			add = a2
+		}
+	}
 	why := ""
+	noEffect := false
 	ill := e.illegalIntent(c)
 	switch op.Variant {
 	case "Batch.Add":
@@ -117,6 +137,11 @@ func (e *Engine) opBatch(c *cursor) *Violation {
 		len(op.Add) == 0 && len(op.Rem) == 0 {
 		if ill && op.Variant == "Relations.ExchangeBatch" {
 			why = "exchange-no-effect-with-relation"
+		} else if op.Variant != "Relations.ExchangeBatch" && !op.Q && c.n(3) == 0 {
+			// a batch call without any component: legal, changes nothing, announces nothing (the number it returns
+			// is not pinned down by the documentation)
+			noEffect = true
+			e.St.Probes["batch-without-components"]++
 		} else {
 			e.St.Skipped++
 			return nil
@@ -140,7 +165,7 @@ func (e *Engine) opBatch(c *cursor) *Violation {
 		e.rmOrder = order
 	}
 
-	if e.P.BatchAsSingles && why == "" && !e.locked() {
+	if e.P.BatchAsSingles && why == "" && !e.locked() && !noEffect {
 		return e.batchAsSingles(op, matched)
 	}
 	res, ok, v := e.issue(op, why)
@@ -177,8 +202,11 @@ func (e *Engine) opBatch(c *cursor) *Violation {
 	if len(srcTables) > 1 {
 		e.St.Probes["batch-multi-source"]++
 	}
+	if noEffect {
+		matched = nil
+	}
 	var countViol *Violation
-	if !op.Q && res.Count != len(matched) {
+	if !op.Q && res.Count != len(matched) && !noEffect {
 		countViol = e.viol(cl, op, "%s returned %d, %d entities match %s", op.Variant, res.Count, len(matched), spec)
 	}
 	before := len(e.expEvents)
